@@ -77,3 +77,8 @@ def judge(c, impl, model):
     if compared >= 3:
         info['nontrivial'] = True
     return fs, info
+
+
+def judge_all(cases, impl, model, tier):
+    fs, info = rustc_layout_validation(ID, cases, impl, tier)
+    return fs, info, []
